@@ -66,6 +66,7 @@ class Recorder:
         self.violation_keys: Counter = Counter()
         self.samples: list = []
         self.errors: list[dict] = []
+        self.slowest: list = []
         self.current_case = None
 
     # -- observations -------------------------------------------------------------------------
@@ -98,6 +99,11 @@ class Recorder:
             self.violations.append({"key": key, "what": what, "case": jsonable(self.current_case),
                                     "witness": jsonable(witness)})
 
+    def note_time(self, seconds: float):
+        self.slowest.append([round(seconds, 2), jsonable(self.current_case)])
+        self.slowest.sort(key=lambda x: -x[0])
+        del self.slowest[3:]
+
     def error(self, what: str, tb: str):
         self.errors.append({"what": what, "case": jsonable(self.current_case), "traceback": tb[-3000:]})
 
@@ -113,6 +119,7 @@ class Recorder:
             "violation_keys": dict(self.violation_keys),
             "samples": self.samples,
             "errors": self.errors,
+            "slowest": self.slowest,
         }
 
     def merge(self, d: dict):
@@ -129,3 +136,4 @@ class Recorder:
             if len(self.samples) < self.MAX_SAMPLES:
                 self.samples.append(s)
         self.errors.extend(d["errors"])
+        self.slowest = sorted(self.slowest + d.get("slowest", []), key=lambda x: -x[0])[:3]
